@@ -5,12 +5,19 @@ pub uninterp spec fn f64_le_one(x: f64) -> bool;
 // f64::min(a, b): IEEE minNum -- never larger than a non-NaN operand; with b == 1.0 the result is <= 1.0 (NaN.min(1.0) == 1.0)
 pub assume_specification [f64::min] (a: f64, b: f64) -> (r: f64)
     ensures b == 1.0f64 ==> f64_le_one(r);
+// `0.0 <= x && x.is_finite()`
+pub uninterp spec fn f64_nonneg_finite(x: f64) -> bool;
 impl Duration {
-    // Duration::mul_f64(f): panics for a negative / non-finite product (NOT modelled: absence of that panic is not claimed);
-    // when it returns, f >= 0, so with f <= 1.0 the result does not exceed self
+    // Duration::mul_f64(f) = from_secs_f64(f * self.as_secs_f64()).  It PANICS for a negative, NaN or overflowing product: the stub is
+    // a guard (it returns only if f is non-negative and finite) -- the panic is a legal outcome (the simulation aborts), its absence is
+    // NOT claimed.  When it returns with f <= 1.0 the result does not exceed self PROVIDED self < 2^52 ns (about 52 days): above that
+    // an f64 no longer resolves nanoseconds and the product can round UP (stubcheck: Duration::new(10_000_000, 1).mul_f64(1.0) is
+    // self + 1 ns; the earlier unconditional claim was refuted and is corrected here).
     #[verifier::external_body]
     pub fn mul_f64(self, f: f64) -> (r: Duration)
-        ensures f64_le_one(f) ==> r.ns@ <= self.ns@
+        ensures
+            f64_nonneg_finite(f),
+            f64_le_one(f) && self.ns@ < 0x10_0000_0000_0000 ==> r.ns@ <= self.ns@
     { unimplemented!() }
 }
 // indexmap::IndexSet::shift_remove_index(i): removes and returns the element at position i, the later ones move down one
